@@ -1189,6 +1189,8 @@ TRUSTED = [
     "ColorValue._setCssText, the default callbacks and the dispatch loop of Base._parse; _tokensupto2 = C04's Upto.v",
     "C04's Upto.v / UptoFacts.v / Skeleton.v / SkeletonFacts.v (models of _tokensupto2 and of the statement skeleton; their "
     "correspondence with the code is C04's check)",
+    "PP's ProdParser*.v / ProdParserBridge.media_leaf (engine model of MediaList on the head of an @media rule; its "
+    "correspondence is PP's check): with it parse_never_raises_skeleton_pp assumes only other_leaves_total (seven leaves)",
     "Section hypothesis leaves_total (parse_never_raises_skeleton): the eight leaf parsers -- selector list, Property "
     "(name, ProdParser value grammars, priority, profiles validation), media query list, @import, @namespace, @page, "
     "@font-face, @variables bodies -- return on every finite token run; validated only end to end by the oracle streams",
